@@ -32,6 +32,8 @@ CHECKS = {
          "Not decided: the post-failure values (previous length and contents) beyond what the ordering implies; multi-step iterator-driven operations; leaks/double drops after failure (see C06)."),
  "C08": ("Claimed narrowly: facade methods delegate to the same-named shared slice implementation (R1); index-derived raw accesses are gated by std's bound relation with a diverging failure arm (R2); element shuffles of remove / swap_remove / insert against Vec's contract in affine normal form, forward and mirrored for the reverse vector (R3); capacity promises: grow only when needed, amortised vs exact policy, ZST never grows / capacity MAX (R4).",
          "NOT decided: equivalence with Vec over operation sequences, iterators (drain/splice/extract_if results), sort/dedup outcomes, lengths after multi-step operations."),
+ "C09": ("Claimed narrowly: every index flowing into a byte-level editor of a string is covered by a dominating char-boundary check on that value (R1); bytes become str only after core::str::from_utf8 succeeded or at tabled sites with checked operand class (R2); retain's length guard covers the predicate, drain is lazy (R3); C-string constructors end at the first NUL or append exactly one (R4).",
+         "NOT decided: equivalence with std::string::String over operation sequences, lossy decoders' output, formatting results."),
  "C10": ("Every written position value is min-aligned by construction and the aligner helpers have their canonical form (R1, R1c); accounting identities allocated+remaining=capacity, size-capacity=header size and the Stats/AnyStats sum shapes (R2, affine value numbering); typed == type-erased accessors as affine normal forms (R3) and no size-dependent arithmetic on the erased header (R3b); chunk list link protocol (R4); recorded chunk size = aligned granted size (R5).",
          "Not decided: the numbers themselves (position inside the chunk, strict growth of chunk sizes, multiples of 16)."),
  "C12": ("Claimed narrowly: no plain/wrapping/unchecked + or * in the size computations, plain - only where tabled (R1); failures become None/capacity_overflow, nothing unwrapped (R2); slow path sizes by max(hint for layout, checked doubling) (R3); rounding order and presence of every summand of the capacity hint (overhead, header, bytes + worst-case padding, MIN_CHUNK_ALIGN slack) for up and down, min raise, align_size after the overhead subtraction (R4, value numbering).",
